@@ -1,2 +1,292 @@
-(* C13 - placeholder while the proofs are being written *)
-From MafVerif Require Import lib.Base.
+(* C13 - Parsing header lines keeps every well-formed pragma (key, value,
+   position) and reports every malformed or duplicate line with its category
+   and 1-based line number, keeping the first of duplicates; printing a parsed
+   header and parsing it again is the identity; the accessors and the
+   header-level checks reflect exactly the kept pragmas; a header derived from
+   a reader is independent of the reader's own header.
+   Property theorems only; proofs are in proofs/HeaderSpec.v,
+   proofs/HeaderRoundTrip.v, proofs/HeaderStore.v. *)
+From Coq Require Import Sorted.
+From MafVerif Require Import lib.Base lib.Str model.Validation model.Header spec.SpecHeader
+  proofs.HeaderSpec proofs.HeaderRoundTrip.
+
+(* ---------- one line ---------- *)
+(* MafHeaderRecord.from_line agrees with the classification of the spec: the
+   same error category for a malformed line, and for a well-formed one a record
+   with that key holding the text / the contig names / the named sort order *)
+Theorem C13_line_classification :
+  forall (line : str) (ln : option Z),
+    (forall c, classify line = Malformed c ->
+               hrec_from_line line ln = inr (mkerr (diag_code (DMalformed c)) ln)) /\
+    (forall k v, classify line = WellFormed k v ->
+       exists r, hrec_from_line line ln = inl r /\ hkey r = k /\
+         (k = K_CONTIGS -> hval r = HContigs (split COMMA v)) /\
+         (k = K_SORT -> exists o, so_name o = v /\ hval r = HOrder o []) /\
+         (k <> K_CONTIGS -> k <> K_SORT -> hval r = HText v)).
+Proof. exact hrec_from_line_classify. Qed.
+Print Assumptions C13_line_classification.
+
+(* what "well-formed" means, declaratively *)
+Theorem C13_wellformed_iff :
+  forall l k v,
+    classify l = WellFormed k v <->
+    exists text, l = HASH :: k ++ SP :: text /\ ~ In SP k /\ k <> [] /\ v = rstrip_ws text /\ v <> [] /\
+                 (k = SP_SORT -> In v SP_ORDER_NAMES).
+Proof. exact classify_wellformed_iff. Qed.
+Print Assumptions C13_wellformed_iff.
+
+(* ---------- the loop, from any state ---------- *)
+Theorem C13_loop_is_spec :
+  forall n lines (recs : list (str * hrec)) errs,
+    parse_header_lines n lines recs errs =
+    (recs ++ map to_rec (fst (expected n (map fst recs) lines)),
+     errs ++ map to_err (snd (expected n (map fst recs) lines))).
+Proof. exact parse_header_lines_spec. Qed.
+Print Assumptions C13_loop_is_spec.
+
+(* ---------- from_lines ---------- *)
+(* silent parsing never raises, logs nothing, and returns exactly the expected
+   header: the kept pragmas in order, each as a record of its own key holding
+   what `interpret` says, and the diagnostics (category code, 1-based number)
+   followed by the header-level checks *)
+Theorem C13_from_lines_is_spec :
+  forall (C : Type) (registry : list (scheme C)) lines lg,
+    let K := fst (expected_header lines) in
+    let recs := map (final_rec K) K in
+    exists sch, h_scheme registry recs = Ok sch /\
+      header_from_lines registry lines (Some Silent) lg =
+      ([], Ok {| hrecs := recs;
+                 herrs := map to_err (snd (expected_header lines)) ++ validate_errs registry recs sch;
+                 hmode := Silent |}).
+Proof. intros C registry. exact (from_lines_spec registry). Qed.
+Print Assumptions C13_from_lines_is_spec.
+
+(* the same records and errors under every stringency; the stringency only
+   decides whether the first error is raised / the errors are logged *)
+Theorem C13_from_lines_any_stringency :
+  forall (C : Type) (registry : list (scheme C)) lines m lg,
+    let K := fst (expected_header lines) in
+    let recs := map (final_rec K) K in
+    exists sch, h_scheme registry recs = Ok sch /\
+      let errs := map to_err (snd (expected_header lines)) ++ validate_errs registry recs sch in
+      header_from_lines registry lines m lg =
+      obind (process (mode_of m) lg errs)
+            (fun _ => oret {| hrecs := recs; herrs := errs; hmode := mode_of m |}).
+Proof. intros C registry. exact (from_lines_spec_any_mode registry). Qed.
+Print Assumptions C13_from_lines_any_stringency.
+
+(* every stored record has the key it is filed under and holds the value the
+   pragma stands for (text / contig names / the named order with the header's
+   contigs when it is a coordinate order) *)
+Theorem C13_records_reflect_pragmas :
+  forall lines p k v,
+    let K := fst (expected_header lines) in
+    In (p, k, v) K ->
+    exists hv, final_rec K (p, k, v) = (k, {| hkey := k; hval := hv |}) /\
+               reflects (interpret K k v) hv.
+Proof. exact final_rec_reflects. Qed.
+Print Assumptions C13_records_reflect_pragmas.
+
+(* first of duplicates: kept keys are pairwise different, and a pragma is kept
+   iff it is the first well-formed line with its key (at its 1-based number) *)
+Theorem C13_duplicates_keep_first :
+  forall lines,
+    NoDup (map kept_key (fst (expected_header lines))) /\
+    forall p k v,
+      In (p, k, v) (fst (expected_header lines)) <->
+      exists i l, p = Z.of_nat i + 1 /\ nth_error lines i = Some l /\
+                  classify l = WellFormed k v /\ ~ earlier_key lines i k.
+Proof. intros lines. split; [exact (header_keys_nodup lines)|exact (header_kept_iff lines)]. Qed.
+Print Assumptions C13_duplicates_keep_first.
+
+(* a diagnostic (d, p) is reported iff line p (1-based) is malformed with that
+   category, or is well-formed with a key an earlier well-formed line has *)
+Theorem C13_positions_one_based :
+  forall lines d p,
+    In (d, p) (snd (expected_header lines)) <->
+    exists i l, p = Z.of_nat i + 1 /\ nth_error lines i = Some l /\
+      ((exists c, classify l = Malformed c /\ d = DMalformed c) \/
+       (exists k v, classify l = WellFormed k v /\ d = DDuplicate /\ earlier_key lines i k)).
+Proof. exact header_diag_iff. Qed.
+Print Assumptions C13_positions_one_based.
+
+(* both lists are in line order and every line yields exactly one entry *)
+Theorem C13_in_line_order :
+  forall lines,
+    StronglySorted Z.lt (map kept_pos (fst (expected_header lines))) /\
+    StronglySorted Z.lt (map snd (snd (expected_header lines))) /\
+    (length (fst (expected_header lines)) + length (snd (expected_header lines)) = length lines)%nat.
+Proof. exact header_in_line_order. Qed.
+Print Assumptions C13_in_line_order.
+
+(* ---------- print / parse ---------- *)
+(* whatever the first parse's stringency: printing the returned header and
+   parsing the lines again gives the same records and no parse-stage
+   diagnostic at all (only the header-level checks remain) *)
+Theorem C13_round_trip :
+  forall (C : Type) (registry : list (scheme C)) lines m lg lg' l h,
+    header_from_lines registry lines m lg = (l, Ok h) ->
+    exists sch, h_scheme registry (hrecs h) = Ok sch /\
+      header_from_lines registry (header_print_lines (hrecs h)) (Some Silent) lg' =
+      ([], Ok {| hrecs := hrecs h; herrs := validate_errs registry (hrecs h) sch; hmode := Silent |}).
+Proof. intros C registry. exact (round_trip registry). Qed.
+Print Assumptions C13_round_trip.
+
+Theorem C13_print_lines_split :
+  forall (C : Type) (registry : list (scheme C)) lines m lg l h,
+    header_from_lines registry lines m lg = (l, Ok h) ->
+    Forall (fun ln => ~ In LF ln) lines -> hrecs h <> [] ->
+    split LF (header_print (hrecs h)) = header_print_lines (hrecs h).
+Proof. intros C registry. exact (print_lines_split registry). Qed.
+Print Assumptions C13_print_lines_split.
+
+Theorem C13_round_trip_text :
+  forall (C : Type) (registry : list (scheme C)) lines m lg lg' l h,
+    header_from_lines registry lines m lg = (l, Ok h) ->
+    Forall (fun ln => ~ In LF ln) lines -> hrecs h <> [] ->
+    exists sch, h_scheme registry (hrecs h) = Ok sch /\
+      header_from_lines registry (split LF (header_print (hrecs h))) (Some Silent) lg' =
+      ([], Ok {| hrecs := hrecs h; herrs := validate_errs registry (hrecs h) sch; hmode := Silent |}).
+Proof. intros C registry. exact (round_trip_text registry). Qed.
+Print Assumptions C13_round_trip_text.
+
+(* ---------- accessors and header-level checks ---------- *)
+Theorem C13_accessors :
+  forall (C : Type) (registry : list (scheme C)) lines m lg l h,
+    header_from_lines registry lines m lg = (l, Ok h) ->
+    let K := fst (expected_header lines) in
+    h_version (hrecs h) = kept_value SP_VERSION K /\
+    h_annotation (hrecs h) = kept_value SP_ANNOT K /\
+    h_contigs (hrecs h) = option_map (split COMMA) (kept_value SP_CONTIGS K) /\
+    (kept_value SP_SORT K = None -> h_sort_order (hrecs h) = (SoUnsorted, [])) /\
+    (forall v, kept_value SP_SORT K = Some v ->
+       exists o cs, interpret K SP_SORT v = POrder (so_name o) cs /\ so_name o = v /\
+                    h_sort_order (hrecs h) = (o, cs)).
+Proof. intros C registry. exact (accessors_spec registry). Qed.
+Print Assumptions C13_accessors.
+
+(* scheme() never raises *)
+Theorem C13_scheme_total :
+  forall (C : Type) (registry : list (scheme C)) recs, exists sch, h_scheme registry recs = Ok sch.
+Proof. intros C registry. exact (h_scheme_ok registry). Qed.
+Print Assumptions C13_scheme_total.
+
+(* validate(): the error types are the decision table of the spec, on any
+   header; none of them carries a line number *)
+Theorem C13_checks_decision_table :
+  forall (C : Type) (registry : list (scheme C)) recs sch,
+    map etpe (validate_errs registry recs sch) =
+    header_checks (h_contains K_VERSION recs) (version_known registry recs) (sch_basic sch)
+                  (h_contains K_ANNOT recs) (annot_known registry recs) /\
+    Forall (fun e => eline e = None) (validate_errs registry recs sch).
+Proof. intros C registry. exact (checks_decision_table registry). Qed.
+Print Assumptions C13_checks_decision_table.
+
+(* "known" means: the raw value is a text that some registered scheme has *)
+Theorem C13_known_means_registered :
+  forall (C : Type) (registry : list (scheme C)) (f : scheme C -> str) hv,
+    existsb (fun s => hval_is_text hv (f s)) registry = true <->
+    exists t, hv = HText t /\ In t (map f registry).
+Proof. intros C registry. exact (known_iff registry). Qed.
+Print Assumptions C13_known_means_registered.
+
+(* on a parsed header the inputs of the table are read off the kept pragmas *)
+Theorem C13_checks_reflect_pragmas :
+  forall (C : Type) (registry : list (scheme C)) lines m lg l h sch,
+    header_from_lines registry lines m lg = (l, Ok h) ->
+    let K := fst (expected_header lines) in
+    map etpe (validate_errs registry (hrecs h) sch) =
+    header_checks (is_some (kept_value SP_VERSION K))
+                  (match kept_value SP_VERSION K with
+                   | Some v => existsb (str_eqb v) (map s_version registry) | None => false end)
+                  (sch_basic sch)
+                  (is_some (kept_value SP_ANNOT K))
+                  (match kept_value SP_ANNOT K with
+                   | Some v => existsb (str_eqb v) (map s_annot registry) | None => false end).
+Proof. intros C registry. exact (parsed_checks registry). Qed.
+Print Assumptions C13_checks_reflect_pragmas.
+
+(* ---------- non-vacuity ---------- *)
+Definition l_version : str := [35;118;101;114;115;105;111;110;32;103;100;99;45;49;46;48;46;48]%N. (* #version gdc-1.0.0 *)
+Definition l_contigs : str := [35;99;111;110;116;105;103;115;32;99;104;114;49;44;99;104;114;50]%N. (* #contigs chr1,chr2 *)
+Definition l_sort : str := [35;115;111;114;116;46;111;114;100;101;114;32;67;111;111;114;100;105;110;97;116;101]%N. (* #sort.order Coordinate *)
+Definition l_k : str := [35;107;32;97;32;32;98;32;32]%N. (* #k a  b   (trailing blanks) *)
+Definition l_dup : str := [35;118;101;114;115;105;111;110;32;120]%N. (* #version x *)
+Definition l_nosep : str := [35;110;111;115;101;112]%N. (* #nosep *)
+Definition l_nostart : str := [118;101;114;115;105;111;110;32;49]%N. (* version 1 *)
+Definition l_nokey : str := [35;32;118]%N. (* # v *)
+Definition l_noval : str := [35;101;32;32;32;9]%N. (* #e   \t *)
+Definition l_badsort : str := [35;115;111;114;116;46;111;114;100;101;114;32;66;111;103;117;115]%N. (* #sort.order Bogus *)
+Definition s_gdc : str := [103;100;99;45;49;46;48;46;48]%N. (* gdc-1.0.0 *)
+Definition s_prot : str := [103;100;99;45;49;46;48;46;48;45;112;114;111;116;101;99;116;101;100]%N. (* gdc-1.0.0-protected *)
+Definition s_chr1 : str := [99;104;114;49]%N. (* chr1 *)
+Definition s_chr2 : str := [99;104;114;50]%N. (* chr2 *)
+Definition s_k : str := [107]%N. (* k *)
+Definition s_ab : str := [97;32;32;98]%N. (* a  b *)
+Definition v_contigs : str := [99;104;114;49;44;99;104;114;50]%N. (* chr1,chr2 *)
+Definition l_k_canon : str := [35;107;32;97;32;32;98]%N. (* #k a  b *)
+
+Definition demo_lines : list str :=
+  [l_version; l_contigs; l_sort; l_k; l_dup; l_nosep; l_nostart; l_nokey; l_noval; l_badsort].
+Definition demo_registry : list (scheme unit) :=
+  [ {| s_version := s_gdc; s_annot := s_gdc; s_cols := []; s_norestr := false |};
+    {| s_version := s_gdc; s_annot := s_prot; s_cols := []; s_norestr := false |} ].
+
+(* the spec side: four kept pragmas with their line numbers; six diagnostics *)
+Example demo_expected :
+  expected_header demo_lines =
+  ([(1, SP_VERSION, s_gdc); (2, SP_CONTIGS, v_contigs); (3, SP_SORT, N_COORD); (4, s_k, s_ab)],
+   [(DDuplicate, 5); (DMalformed MissingSep, 6); (DMalformed MissingStart, 7);
+    (DMalformed EmptyKey, 8); (DMalformed EmptyValue, 9); (DMalformed BadSortOrder, 10)]).
+Proof. vm_compute. reflexivity. Qed.
+
+(* the model side: the records (the coordinate order received the contigs) and
+   the errors with their 1-based numbers; the basic scheme is found, so no
+   header-level error *)
+Definition demo_header : header :=
+  {| hrecs := [ (K_VERSION, {| hkey := K_VERSION; hval := HText s_gdc |});
+                (K_CONTIGS, {| hkey := K_CONTIGS; hval := HContigs [s_chr1; s_chr2] |});
+                (K_SORT, {| hkey := K_SORT; hval := HOrder SoCoordinate [s_chr1; s_chr2] |});
+                (s_k, {| hkey := s_k; hval := HText s_ab |}) ];
+     herrs := [ mkerr 5 (Some 5); mkerr 2 (Some 6); mkerr 1 (Some 7); mkerr 3 (Some 8);
+                mkerr 4 (Some 9); mkerr 10 (Some 10) ];
+     hmode := Silent |}.
+Example demo_parse :
+  header_from_lines demo_registry demo_lines (Some Silent) LgRoot = ([], Ok demo_header).
+Proof. vm_compute. reflexivity. Qed.
+
+(* strict parsing of the same lines raises the first diagnostic with its number *)
+Example demo_parse_strict :
+  header_from_lines demo_registry demo_lines (Some Strict) LgRoot = ([], Raise (MafFormat 5 (Some 5))).
+Proof. vm_compute. reflexivity. Qed.
+
+(* the hypotheses of the round trip hold: printing gives the canonical lines
+   (trailing blanks gone), they contain no LF, and parsing them again gives the
+   same records and no error *)
+Example demo_print :
+  header_print_lines (hrecs demo_header) = [l_version; l_contigs; l_sort; l_k_canon].
+Proof. vm_compute. reflexivity. Qed.
+Example demo_reparse :
+  header_from_lines demo_registry (split LF (header_print (hrecs demo_header))) (Some Silent) LgRoot
+  = ([], Ok {| hrecs := hrecs demo_header; herrs := []; hmode := Silent |}).
+Proof. vm_compute. reflexivity. Qed.
+
+(* the accessors *)
+Example demo_accessors :
+  (h_version (hrecs demo_header), h_annotation (hrecs demo_header),
+   h_contigs (hrecs demo_header), h_sort_order (hrecs demo_header))
+  = (Some s_gdc, None, Some [s_chr1; s_chr2], (SoCoordinate, [s_chr1; s_chr2])).
+Proof. vm_compute. reflexivity. Qed.
+
+(* the decision table bites: no version -> 6 then 8; an annotation next to a
+   basic scheme -> 9; unknown version -> 7 and (no scheme) missing annotation 8 *)
+Example demo_checks :
+  (map etpe (validate_errs demo_registry [] None),
+   map etpe (validate_errs demo_registry
+               [(K_VERSION, {| hkey := K_VERSION; hval := HText s_gdc |});
+                (K_ANNOT, {| hkey := K_ANNOT; hval := HText s_gdc |})]
+               (Some {| s_version := s_gdc; s_annot := s_gdc; s_cols := []; s_norestr := false |})),
+   map etpe (validate_errs demo_registry
+               [(K_VERSION, {| hkey := K_VERSION; hval := HText s_k |})] None))
+  = ([6; 8], [9], [7; 8]).
+Proof. vm_compute. reflexivity. Qed.
